@@ -9,11 +9,12 @@ cp -r /repo/. $D/ && rm -rf $D/.git
 if ! (cd $D && patch -p1 -s < $P); then echo "PATCH-FAILED $P"; rm -rf $D; exit 3; fi
 export GOFLAGS=-mod=mod GOPROXY=off GOSUMDB=off GOTOOLCHAIN=local
 if ! (cd $D && go build ./... 2>&1 | head -5 | grep -q . ); then :; else echo "MUTANT-DOES-NOT-COMPILE $P"; (cd $D && go build ./... 2>&1 | head -5); rm -rf $D; exit 3; fi
-OUT=$(BBSIM_REPO=$D BBSIM_VERIF=$V $V/bin/bbsim check --prop $PROP --runs $RUNS --no-evidence 2>&1); RC=$?
+R=$(mktemp -d /tmp/replays-XXXXXX)
+OUT=$(BBSIM_REPLAYDIR=$R BBSIM_REPO=$D BBSIM_VERIF=$V $V/bin/bbsim check --prop $PROP --runs $RUNS --no-evidence 2>&1); RC=$?
 N=$(echo "$OUT" | grep -c '^VIOLATION')
 CHK=$(echo "$OUT" | grep -m1 'check=' | sed 's/^ *//')
 echo "$(basename $P) $PROP rc=$RC violations=$N $CHK"
 if [ $RC -eq 2 ]; then echo "$OUT" | tail -5; fi
 rm -rf $D
-rm -f $V/replays/${PROP}-*.json
+rm -rf $R
 exit 0
